@@ -517,6 +517,49 @@ type lvI struct {
 
 func (l *lvI) Own(ctx context.Context) error { l.r.hit("Own"); return nil }
 
+// four levels deep with several function fields side by side at the deepest level (paths that share a long
+// prefix), and nested services whose names differ only in case (Go identifiers are case sensitive)
+type rdDeep struct {
+	Outer struct {
+		Inner struct {
+			Deep struct {
+				First  fE
+				Second fOK
+				Third  fE
+			}
+			Side fE
+		}
+		Edge fOK
+	}
+	API struct{ Version fE }
+	Api struct{ Version fOK }
+}
+type lvD struct {
+	r     *pathRec
+	Outer lvDO
+	API   lvDA1
+	Api   *lvDA2
+}
+type lvDO struct {
+	r     *pathRec
+	Inner *lvDI
+}
+type lvDI struct {
+	r    *pathRec
+	Deep lvDD
+}
+type lvDD struct{ r *pathRec }
+type lvDA1 struct{ r *pathRec }
+type lvDA2 struct{ r *pathRec }
+
+func (d lvDD) First(ctx context.Context) error                 { d.r.hit("Outer.Inner.Deep.First"); return nil }
+func (d lvDD) Second(ctx context.Context, x int) (int, error)  { d.r.hit("Outer.Inner.Deep.Second"); return x, nil }
+func (d lvDD) Third(ctx context.Context) error                 { d.r.hit("Outer.Inner.Deep.Third"); return nil }
+func (i *lvDI) Side(ctx context.Context) error                 { i.r.hit("Outer.Inner.Side"); return nil }
+func (o lvDO) Edge(ctx context.Context, x int) (int, error)    { o.r.hit("Outer.Edge"); return x, nil }
+func (a lvDA1) Version(ctx context.Context) error              { a.r.hit("API.Version"); return nil }
+func (a *lvDA2) Version(ctx context.Context, x int) (int, error) { a.r.hit("Api.Version"); return x, nil }
+
 func runRemoteE2E[R any](name string, local any, rec *pathRec) RemoteCase {
 	var zero R
 	rc := RemoteCase{Def: name, Desc: describeRemote("", reflect.TypeOf(zero)), E2E: map[string]string{}}
@@ -595,8 +638,9 @@ func hasUnusableFuncParam(t reflect.Type) bool {
 }
 
 func RunRemotes() []RemoteCase {
-	r1, r2, r3, r4, r5, r6 := newPathRec(), newPathRec(), newPathRec(), newPathRec(), newPathRec(), newPathRec()
+	r1, r2, r3, r4, r5, r6, r7 := newPathRec(), newPathRec(), newPathRec(), newPathRec(), newPathRec(), newPathRec(), newPathRec()
 	e2e := []RemoteCase{
+		runRemoteE2E[rdDeep]("deep/e2e", &lvD{r: r7, Outer: lvDO{r: r7, Inner: &lvDI{r: r7, Deep: lvDD{r7}}}, API: lvDA1{r7}, Api: &lvDA2{r7}}, r7),
 		runRemoteE2E[rdEmbedded]("embedded/e2e", &lvE{r: r3, RdBase: lvEB{r3, ""}, Tail: &lvET{r: r3, RdBase: lvEB{r3, "Tail."}}}, r3),
 		runRemoteE2E[rdValid1]("valid1/e2e", &lv1{r: r1, N: &lv1N{r: r1, D: lv1D{r1}}}, r1),
 		runRemoteE2E[rdIface]("iface/e2e", &lvI{r: r6, Greeter: lvGimpl{r6}}, r6),
@@ -611,7 +655,7 @@ func RunRemotes() []RemoteCase {
 		runRemote[rdTwoBad]("twobad"), runRemote[rdTwoBad2]("twobad2"), runRemote[rdBothBad]("bothbad"), runRemote[rdChan]("chan-map-ptr"),
 		runRemote[sysRemote]("sysremote"), runRemote[epRemote]("epremote"),
 		runRemote[rdEmbedded]("embedded"), runRemote[rdAnyFirst]("anyfirst"), runRemote[rdWiderCtx]("widerctx"),
-		runRemote[rdNames]("names"), runRemote[rdPromoted]("promoted"), runRemote[rdUnexpRet]("unexp-ret"), runRemote[rdUnexpArgs]("unexp-args"),
+		runRemote[rdNames]("names"), runRemote[rdPromoted]("promoted"), runRemote[rdUnexpRet]("unexp-ret"), runRemote[rdUnexpArgs]("unexp-args"), runRemote[rdDeep]("deep"),
 	}
 	out = append(out, e2e...)
 	sort.Slice(out, func(i, j int) bool { return out[i].Def < out[j].Def })
